@@ -25,6 +25,7 @@ def run(ctx: Ctx, chk) -> None:
     chk.run_rule(wrap_exact, ctx)
     chk.run_rule(wrap_cond, ctx)
     chk.run_rule(writers1, ctx)
+    chk.run_rule(dispatch1, ctx)
 
 
 def message_term(ctx: Ctx, f: FuncInfo, e: ast.expr):
@@ -53,8 +54,14 @@ def message_term(ctx: Ctx, f: FuncInfo, e: ast.expr):
     return tuple(out)
 
 
+def _helper(h: FuncInfo) -> bool:
+    return not h.name.lstrip("_").startswith("handle")
+
+
 def handler_code(ctx: Ctx) -> list[FuncInfo]:
-    return tables.all_handler_defs(ctx, include_wrappers=True)
+    """Handler and wrapper definitions, each with its statement-level helper calls written out (an extracted
+    helper that sends is judged as part of the handler that calls it)."""
+    return [ctx.inl(f, _helper) for f in tables.all_handler_defs(ctx, include_wrappers=True)]
 
 
 def send_sites(ctx: Ctx):
@@ -246,7 +253,7 @@ def wrap_exact(ctx: Ctx, chk) -> None:
 
 def wrap_cond(ctx: Ctx, chk) -> None:
     rule = "WRAP-COND"
-    chk.rule(rule, "truth table of the wrapper's condition over version in {None, known} x command in {internal, other} x type in {I_LOG_MESSAGE, I_GATEWAY_READY, other}: a query is sent iff the version is unknown and the message is not a log or gateway-ready message")
+    chk.rule(rule, "truth table of the wrapper's condition over version in {None, known} x command in {internal, other} x type in {every internal type number of any protocol version, one unused number} (the condition may live in a predicate helper, which is interpreted): a query is sent iff the version is unknown and the message is not a log or gateway-ready message")
     I = ctx.I
     w = I.wrapper_of(ctx.func(VWRAP))
     sends = [x for x in ctx.own_nodes(w) if isinstance(x, ast.Call) and norm(x.func) == "gateway.send"]
@@ -278,17 +285,20 @@ def wrap_cond(ctx: Ctx, chk) -> None:
     V = "1.4"
     log, ready = _ival(ctx, V, "I_LOG_MESSAGE"), _ival(ctx, V, "I_GATEWAY_READY")
     n = 0
+    # every internal type number of any protocol version, plus one number that no table uses
+    all_types = sorted({v for VV in ctx.versions for v in ctx.folder.enum_canonical(ctx.I.vclass(VV, "Internal"))})
+    all_types.append(max(all_types) + 1000)
     for version in (None, "known"):
         for command in (3, 1):
-            for mtype in (log, ready, 0):
+            for mtype in all_types:
                 n += 1
                 chk.instance(rule)
                 env = {"gateway.protocol_version": version, f"{msg}.command": command, f"{msg}.message_type": mtype}
                 got = all(bool(_evalcond(ctx, w, a, env)) == pol for a, pol in guards)
                 want = version is None and not (command == 3 and mtype in (log, ready))
-                cell = f"version={'None' if version is None else 'known'},command={'internal' if command == 3 else 'other'},type={'log' if mtype == log else 'gateway-ready' if mtype == ready else 'other'}"
+                cell = f"version={'None' if version is None else 'known'},command={'internal' if command == 3 else 'other'},type={'log' if mtype == log else 'gateway-ready' if mtype == ready else mtype}"
                 if got == want:
-                    chk.ok(rule, f"cell::{cell}", f"query {'sent' if got else 'not sent'}", ctx.loc(w, cond), sample=n in (1, 7))
+                    chk.ok(rule, f"cell::{cell}", f"query {'sent' if got else 'not sent'}", ctx.loc(w, cond), sample=n in (1, 7, 70))
                 else:
                     chk.refute(rule, f"cell::{cell}", f"for {cell} the wrapper {'sends' if got else 'does not send'} a version query; the statement says it {'must' if want else 'must not'}", ctx.loc(w, cond))
 
@@ -322,10 +332,71 @@ def _evalcond(ctx: Ctx, f: FuncInfo, e: ast.expr, env: dict):
             return a not in b
     if isinstance(e, (ast.Tuple, ast.List, ast.Set)):
         return tuple(_evalcond(ctx, f, x, env) for x in e.elts)
+    if isinstance(e, ast.Call):
+        # a predicate helper: interpret its body (if/return only) with the arguments renamed to its parameters
+        from .common import callee_names
+
+        hs = [ctx.func(nm) for nm in sorted(callee_names(ctx, f, e)) if nm.startswith("aiomysensors.")]
+        if len(hs) == 1 and not e.keywords:
+            h = hs[0]
+            params = [p for p in h.positional_params if p not in ("self", "cls")]
+            env2 = {}
+            for p, a in zip(params, e.args):
+                at = norm(a)
+                for k, v in env.items():
+                    if k == at or k.startswith(at + "."):
+                        env2[p + k[len(at):]] = v
+            return _evalbody(ctx, h, h.node.body, env2)
     try:
         return ctx.folder.plain(ctx.folder.fold(f.module, e))
     except Exception as err:  # noqa: BLE001
         raise AnalysisError(f"WRAP-COND: cannot evaluate `{t}`: {err}") from err
+
+
+def dispatch1(ctx: Ctx, chk) -> None:
+    rule = "DISPATCH-1"
+    chk.rule(rule, "in Gateway.listen every normal path from decoding a line to yielding it passes through the handler dispatch of the active protocol: no received message (whatever its ack flag, command or type) bypasses the handlers that produce the specified reactions and the version query")
+    listen = ctx.func("aiomysensors.gateway.Gateway.listen")
+    g = CFG(listen.node)
+    disp = tables.dispatch_calls(ctx, listen, tables.DISPATCH)
+    loads = [n for n in ctx.own_nodes(listen) if isinstance(n, ast.Call) and isinstance(n.func, ast.Attribute) and n.func.attr == "load"]
+    yields = [n for n in ctx.own_nodes(listen) if isinstance(n, (ast.Yield, ast.YieldFrom))]
+    if not loads or not yields:
+        raise AnalysisError("DISPATCH-1: load / yield of Gateway.listen not found")
+    dn = g.nodes_where(lambda x: any(x.contains(c) for c in disp))
+    ln = g.nodes_where(lambda x: any(x.contains(c) for c in loads))
+    yn = g.nodes_where(lambda x: any(x.contains(c) for c in yields))
+    chk.instance(rule)
+    key = f"{listen.fq}::dispatch-before-yield"
+    awaited = all(isinstance(ctx.prog.parents.get(c), ast.Await) for c in disp)
+    p = g.reach_avoiding(ln, lambda x: x in yn, lambda x: x in dn, labels_skip=("exc",))
+    if disp and p is None and awaited:
+        chk.ok(rule, key, "every path load -> yield runs the awaited handler dispatch", ctx.loc(listen, disp[0]))
+    else:
+        why = "the handler returned by get_incoming_message_handler is never called" if not disp else "the dispatch is not awaited" if not awaited else f"a decoded message reaches the yield without being dispatched ({' -> '.join(g.path_text(p)[:5])})"
+        chk.refute(rule, key, f"{why}: its specified reaction (reply, reboot, discover, version query) is never written", ctx.loc(listen, (p[-1].ast if p and p[-1].ast is not None else listen.node)))
+
+
+class _NoReturn(Exception):
+    pass
+
+
+def _evalbody(ctx: Ctx, h: FuncInfo, body, env: dict):
+    for st in body:
+        if isinstance(st, ast.Expr) and isinstance(st.value, ast.Constant):
+            continue
+        if isinstance(st, ast.Pass):
+            continue
+        if isinstance(st, ast.Return):
+            return _evalcond(ctx, h, st.value, env) if st.value is not None else None
+        if isinstance(st, ast.If):
+            branch = st.body if _evalcond(ctx, h, st.test, env) else st.orelse
+            try:
+                return _evalbody(ctx, h, branch, env)
+            except _NoReturn:
+                continue
+        raise AnalysisError(f"WRAP-COND: statement `{norm(st)[:60]}` in predicate {h.qualname} not modelled")
+    raise _NoReturn
 
 
 def writers1(ctx: Ctx, chk) -> None:
